@@ -280,6 +280,14 @@ func tryVal[T any](f func() T) (v T, panicked bool) {
 type R struct{ *rand.Rand }
 
 func newR(seed int64) *R { return &R{rand.New(rand.NewSource(seed))} }
+
+// the thorough tier does not only run ten times the cases: about one case in seven is built LARGER (deeper trees, longer
+// strings, programs, lists and documents). Its own PRNG keeps the quick tier's case stream untouched.
+var thorough bool
+var boostR = newR(1)
+
+func boosted() bool { return thorough && boostR.Intn(100) < 15 }
+
 func (r *R) pick(n int) int {
 	if n <= 0 {
 		return 0
@@ -378,6 +386,9 @@ func (r *R) str() string {
 	default:
 		n = r.Intn(8)
 	}
+	if thorough && boostR.Intn(100) < 3 {
+		n = 8 + boostR.Intn(60)
+	}
 	var b strings.Builder
 	for i := 0; i < n; i++ {
 		b.WriteRune(r.rune_())
@@ -442,7 +453,19 @@ func (r *R) tree(o *TreeOpts, depth int) *V {
 	return ob
 }
 
+// in the thorough tier some trees are built deeper and wider
+func (o *TreeOpts) sized() *TreeOpts {
+	if boosted() {
+		c := *o
+		c.Depth += 2
+		c.Width += 3
+		return &c
+	}
+	return o
+}
+
 func (r *R) listTree(o *TreeOpts) *V {
+	o = o.sized()
 	n := r.Intn(o.Width + 1)
 	l := &V{K: KList}
 	for i := 0; i < n; i++ {
@@ -452,6 +475,7 @@ func (r *R) listTree(o *TreeOpts) *V {
 }
 
 func (r *R) objTree(o *TreeOpts) *V {
+	o = o.sized()
 	n := r.Intn(o.Width + 1)
 	ob := &V{K: KObj}
 	seen := map[string]bool{}
